@@ -96,7 +96,7 @@ def run(ck):
     d = os.path.join(ck.scratch(), "c03")
     os.makedirs(d)
     jobs = []     # (label, src_text or path, target, is_path)
-    stats = {"corpus": 0, "own-sources": 0, "generated": 0, "late-types": 0, "mutants-tried": 0, "mutants-compiled": 0,
+    stats = {"corpus": 0, "own-sources": 0, "generated": 0, "late-types": 0, "initialisers": 0, "mutants-tried": 0, "mutants-compiled": 0,
              "rejected-by-cproc": 0, "data-checked": 0}
 
     # 0. known-finding witnesses first: must still fail (else the model/finding list is stale)
@@ -172,6 +172,44 @@ def run(ck):
         open(p, "w").write(text)
         jobs.append(("late-types", p, targ, True))
 
+    # 3c. initialised objects of every shape (the object generator of C07: nested aggregates, bit-fields, strings of every
+    #     width that are shorter / exactly as long / longer than their array, designators, incomplete arrays): here only
+    #     the SIZE and ALIGNMENT of the emitted definition are judged, against sizeof/_Alignof emitted alongside
+    from . import c07
+    import collections
+    for i in range(40 if ck.quick else 600):
+        targ = progrun.TARGETS[i % 3][0]
+        objs = []
+        for k in range(5):
+            try:
+                o = c07.gen_object(rng, c07.TARGINFO[targ], collections.defaultdict(collections.Counter), i * 100 + k)
+            except Exception as e:      # the generator is C07's business
+                ck.notes.append("c07 generator failed: %s" % e)
+                continue
+            if o.storage == "block-static":
+                continue
+            objs.append(o)
+        lines = [c07.PRELUDE]
+        for o in objs:
+            lines.append(o.c_text())
+            lines.append("unsigned long %s__sz = sizeof %s;" % (o.name, o.name))
+            lines.append("unsigned long %s__al = _Alignof(typeof(%s));" % (o.name, o.name))
+        # wide/narrow strings around the length of their array (truncation drops the terminator and nothing else)
+        for k, (ety, pre) in enumerate([("char", ""), ("unsigned short", "u"), ("unsigned", "U"), ("int", "L"), ("unsigned char", "u8")]):
+            n = rng.randint(1, 6)
+            lit = "".join(rng.choice("abcxyz") for _ in range(max(n, 1) + rng.choice([-1, 0, 0])))
+            lines.append('%s ws%d_%d[%d] = %s"%s";' % (ety, i, k, max(n, 1), pre, lit))
+            lines.append("unsigned long ws%d_%d__sz = sizeof ws%d_%d;" % (i, k, i, k))
+            lines.append("unsigned long ws%d_%d__al = _Alignof(%s);" % (i, k, ety))
+            lines.append('struct { char c; %s s[%d]; int n; } wr%d_%d = {1, %s"%s", 7};' % (ety, max(n, 1), i, k, pre, lit))
+            lines.append("unsigned long wr%d_%d__sz = sizeof wr%d_%d;" % (i, k, i, k))
+            lines.append("unsigned long wr%d_%d__al = _Alignof(typeof(wr%d_%d));" % (i, k, i, k))
+        p = os.path.join(d, "ini%d.c" % i)
+        open(p, "w").write("\n".join(lines) + "\n")
+        g = subprocess.run(["gcc", "-std=gnu2x", "-w", "-fsyntax-only", p], stdout=subprocess.PIPE, stderr=subprocess.PIPE)
+        if g.returncode == 0:
+            jobs.append(("initialisers", p, targ, True))
+
     # 4. token mutants of corpus files
     nm = 400 if ck.quick else 6000
     k = 0
@@ -203,7 +241,7 @@ def run(ck):
             continue
         if rc != 0:
             stats["rejected-by-cproc"] += 1
-            if label in ("corpus", "generated", "own-sources", "late-types"):
+            if label in ("corpus", "generated", "own-sources", "late-types"):     # not "initialisers": acceptance of those is C07's business
                 ck.violation({"kind": "valid-program-rejected", "source": open(job[1]).read()[:6000], "target": job[2],
                               "stderr": err[-600:], "what": "a valid program is rejected (or cproc died: rc=%s)" % rc})
                 return
@@ -234,7 +272,7 @@ def run(ck):
                 ck.violation({"kind": "data-align", "source": open(job[1]).read()[:6000], "target": job[2], "object": name,
                               "emitted_align": align, "what": "data definition with an alignment that is not a power of two >= 1"})
                 return
-        if job[0] not in ("generated", "late-types"):
+        if job[0] not in ("generated", "late-types", "initialisers"):
             continue
         img = data_images(path)
         for name, (size, align) in sz.items():
